@@ -46,6 +46,7 @@ func IOCount(kind string) int
 func LastFault() (kind string, eventIndex int)
 func FileSize(path string) int64
 func FileBytes(path string) []byte
+func FileView(path string) []byte
 func WriteFileBytes(path string, b []byte)
 func PokeFile(path string, off int64, v byte)
 func PeekFile(path string, off int64) byte
